@@ -17,6 +17,7 @@ import (
 	"encoding"
 	"encoding/binary"
 	"fmt"
+	"io"
 	"net"
 	"reflect"
 )
@@ -36,7 +37,7 @@ func (c *conn2) Handshake() error {
 func (c *conn2) receive() (interface{}, error) {
 	buff := make([]byte, 1)
 
-	if _, err := c.Conn.Read(buff); err != nil {
+	if _, err := io.ReadFull(c.Conn, buff); err != nil {
 		return nil, err
 	}
 
@@ -65,7 +66,7 @@ func (c *conn2) receive() (interface{}, error) {
 
 	buff = make([]byte, 2)
 
-	if _, err := c.Conn.Read(buff); err != nil {
+	if _, err := io.ReadFull(c.Conn, buff); err != nil {
 		return nil, err
 	}
 
@@ -73,7 +74,7 @@ func (c *conn2) receive() (interface{}, error) {
 
 	buff = make([]byte, size)
 
-	if _, err := c.Conn.Read(buff); err != nil {
+	if _, err := io.ReadFull(c.Conn, buff); err != nil {
 		return nil, err
 	}
 
